@@ -307,6 +307,9 @@ def gen_server_script(rng):
         # disconnect handlers that tell a room (two emits) that the client
         # left: per-peer packet order is part of what both servers do alike
         cfg['disconnect_emits'] = ROOMS[0]
+    if rng.random() < 0.3:
+        # disconnect handlers that look up the departing client's environ
+        cfg['disconnect_reads_environ'] = True
     if rng.random() < 0.25:
         # failing disconnect handlers (rare among all handler invocations:
         # aimed at separately); behaviours of the first few invocations
